@@ -1,31 +1,81 @@
 #!/venv/bin/python
-"""Run every claimed check against every seeded mutation; update seeded/*/meta.json and print a table."""
-import json, os, subprocess, glob, sys
-V='/verif'
-checks=[c['property_id'] for c in json.load(open(f'{V}/MANIFEST.json'))['checks']]
-rows=[]
-for d in sorted(glob.glob(f'{V}/seeded/*/')):
-    name=os.path.basename(d.rstrip('/'))
-    meta=json.load(open(d+'meta.json'))
-    assert subprocess.run(['git','-C','/repo','diff','--quiet']).returncode==0, '/repo not clean'
-    if subprocess.run(['git','-C','/repo','apply',d+'patch.diff']).returncode!=0:
-        rows.append((name,'PATCH-STALE',[])); continue
+"""
+Run every claimed check against every seeded mutation; update seeded/*/meta.json and print a
+table. Each seed is applied to its own scratch copy of /repo's tracked elementpath/ tree (under a
+mkdtemp directory, removed afterwards) and the checks run against the copy (VERIF_REPO), from a
+snapshot of /verif taken at start: /repo itself is not touched and later edits of the rules do
+not leak into a running matrix.
+"""
+import concurrent.futures as cf
+import glob
+import json
+import os
+import shutil
+import subprocess
+import sys
+import tempfile
+
+V = '/verif'
+checks = [c['property_id'] for c in json.load(open(f'{V}/MANIFEST.json'))['checks']]
+work = tempfile.mkdtemp(prefix='verif-seedmatrix-')
+snap = os.path.join(work, 'verif')
+os.makedirs(snap)
+for name in ('sa', 'known_findings.json', 'MANIFEST.json', 'selftest', 'seeded'):
+    src = os.path.join(V, name)
+    if os.path.isdir(src):
+        shutil.copytree(src, os.path.join(snap, name),
+                        ignore=shutil.ignore_patterns('__pycache__'))
+    else:
+        shutil.copy(src, os.path.join(snap, name))
+base = os.path.join(work, 'base')
+os.makedirs(base)
+subprocess.run('git -C /repo archive HEAD elementpath | tar -x -C ' + base, shell=True, check=True)
+
+
+def one(d):
+    name = os.path.basename(d.rstrip('/'))
+    meta = json.load(open(d + 'meta.json'))
+    tree = tempfile.mkdtemp(prefix=name + '-', dir=work)
     try:
-        own=meta['property']; cand=[own]+[c for c in checks if c!=own]
-        hits=[]
-        import concurrent.futures as cf
-        def run(c):
-            r=subprocess.run(['/venv/bin/python','sa/check.py',c],cwd=V,capture_output=True,text=True,env=dict(os.environ,VERIF_NO_EVIDENCE='1'))
-            rules=sorted({ln.split('[')[1].split(']')[0] for ln in r.stdout.splitlines() if ': [R' in ln})
-            return c,r.returncode,rules
-        with cf.ThreadPoolExecutor(8) as ex:
-            for c,rc,rules in ex.map(run,cand):
-                if rc==1: hits.append(f'{c}:{"+".join(rules)}')
-                elif rc==2: hits.append(f'{c}:ANALYSIS-ERROR')
+        shutil.copytree(os.path.join(base, 'elementpath'), os.path.join(tree, 'elementpath'))
+        r = subprocess.run(['git', 'apply', '--unsafe-paths', '--directory', tree,
+                            d + 'patch.diff'], cwd='/', capture_output=True, text=True)
+        if r.returncode != 0:
+            r = subprocess.run(['patch', '-p1', '-s', '-d', tree, '-i', d + 'patch.diff'],
+                               capture_output=True, text=True)
+            if r.returncode != 0:
+                return name, 'PATCH-STALE', [], meta
+        own = meta['property']
+        hits = []
+        for c in [own] + [c for c in checks if c != own]:
+            r = subprocess.run(['/venv/bin/python', 'sa/check.py', c], cwd=snap,
+                               capture_output=True, text=True,
+                               env=dict(os.environ, VERIF_NO_EVIDENCE='1', VERIF_REPO=tree))
+            rules = sorted({ln.split('[')[1].split(']')[0] for ln in r.stdout.splitlines()
+                            if ': [R' in ln})
+            if r.returncode == 1:
+                hits.append(f'{c}:{"+".join(rules)}')
+            elif r.returncode == 2:
+                hits.append(f'{c}:ANALYSIS-ERROR')
+        return name, 'detected' if hits else 'MISSED', hits, meta
     finally:
-        subprocess.run(['git','-C','/repo','checkout','--','.'])
-    meta['detected_by']=hits; meta['detected_by_own_property_check']=any(h.startswith(meta['property']+':') and 'ANALYSIS' not in h for h in hits)
-    json.dump(meta,open(d+'meta.json','w'),indent=1)
-    rows.append((name,'detected' if hits else 'MISSED',hits))
-for r in rows: print(f'{r[0]:10} {r[1]:10} {", ".join(r[2])}')
-print(sum(1 for r in rows if r[1]=='detected'),'/',len(rows),'detected')
+        shutil.rmtree(tree, ignore_errors=True)
+
+
+try:
+    sel = sys.argv[1:]
+    dirs = [d for d in sorted(glob.glob(f'{V}/seeded/*/'))
+            if not sel or any(os.path.basename(d.rstrip('/')).startswith(s) for s in sel)]
+    with cf.ThreadPoolExecutor(int(os.environ.get('JOBS', '16'))) as ex:
+        rows = list(ex.map(one, dirs))
+finally:
+    shutil.rmtree(work, ignore_errors=True)
+for name, status, hits, meta in rows:
+    if status != 'PATCH-STALE':
+        meta['detected_by'] = hits
+        meta['detected_by_own_property_check'] = any(
+            h.startswith(meta['property'] + ':') and 'ANALYSIS' not in h for h in hits)
+        json.dump(meta, open(f'{V}/seeded/{name}/meta.json', 'w'), indent=1)
+    print(f'{name:10} {status:10} {", ".join(hits)}')
+print(sum(1 for r in rows if r[1] == 'detected'), '/', len(rows), 'detected;',
+      sum(1 for r in rows if r[3].get('detected_by_own_property_check')), 'by their own check')
